@@ -1,11 +1,13 @@
 (* C18 - Every public operation is total: no panics, terminates, valid UTF-8 out.
    Proved so far, about the model (which returns Panic / OutOfFuel where the Go code would
-   panic or loop): the operations below. Termination of the real loops and memory use are
-   observed by the correspondence run (recover(), watchdog), not proved. *)
+   panic or loop): the operations below - selection and edits, CollapseSpace, Wrap, JustifyLine,
+   and Wrap / Justify / Align / Indent through the Editor with their line-wise and
+   paragraph-mode plumbing. Termination of the real loops and memory use are observed by the
+   correspondence run (recover(), watchdog), not proved. *)
 From Coq Require Import List Bool ZArith Lia.
 Import ListNotations.
 From Rosed Require Import Base.Res Base.ListX Base.Utf8 Gem.Segment Gem.GString Model.Manip Model.Table Model.Options Model.Editor Model.Ops
-     Proofs.C04P Proofs.C14P Proofs.C18P.
+     Proofs.C04P Proofs.C14P Proofs.C18P Proofs.SeamP Proofs.C18Q Proofs.C18R.
 Open Scope Z_scope.
 
 (* Chars / Insert / Delete / Overtype on any valid UTF-8 text, any integer positions *)
@@ -41,3 +43,36 @@ Theorem C18_two_columns_no_panic : forall width gap m ex,
   let '(_, _, rw) := two_col_widths width gap m ex in (rw <? 2) = false.
 Proof. exact two_col_no_panic. Qed.
 Print Assumptions C18_two_columns_no_panic.
+
+(* Wrap: the word loop ends within its fuel - its measure is twice the clusters left in the
+   current word plus one for a non-empty current line - and nothing indexes out of range, for
+   every text (no assumption on its clusters), width and separator *)
+Theorem C18_wrap : forall (C : Classifier) (U : Upper) text w sep, exists b, wrap text w sep = Ok b.
+Proof. intros C U. exact wrap_total. Qed.
+Print Assumptions C18_wrap.
+
+(* JustifyLine: the gap indexes stay inside the word list, for every text and width *)
+Theorem C18_justify_line : forall (C : Classifier) (K : ClassifierOk) text w, exists j, justify_line text w = Ok j.
+Proof. intros C K. exact justify_line_total. Qed.
+Print Assumptions C18_justify_line.
+
+(* through the Editor: Wrap in either mode; Justify in paragraph mode or with JustifyLastLine;
+   Align in either mode and for every alignment value (the block indexing of paragraph mode
+   stays in range); Indent outside paragraph mode - every text, width, level and option set *)
+Theorem C18_wrap_editor : forall (C : Classifier) (K : ClassifierOk) (U : Upper) width opts e, exists r, wrap_opts width opts e = Ok r.
+Proof. intros C K U. exact wrap_opts_total. Qed.
+Print Assumptions C18_wrap_editor.
+
+Theorem C18_justify_editor : forall (C : Classifier) (K : ClassifierOk) (U : Upper) width opts e,
+  o_preserve (with_defaults opts) = true \/ o_justlast (with_defaults opts) = true -> exists r, justify_opts width opts e = Ok r.
+Proof. intros C K U. exact justify_opts_total. Qed.
+Print Assumptions C18_justify_editor.
+
+Theorem C18_align_editor : forall (C : Classifier) (K : ClassifierOk) (U : Upper) align width opts e, exists r, align_opts align width opts e = Ok r.
+Proof. intros C K U. exact align_opts_total_all. Qed.
+Print Assumptions C18_align_editor.
+
+Theorem C18_indent_editor : forall (C : Classifier) (K : ClassifierOk) (U : Upper) level opts e,
+  o_preserve (with_defaults opts) = false -> exists r, indent_opts level opts e = Ok r.
+Proof. intros C K U. exact indent_opts_total. Qed.
+Print Assumptions C18_indent_editor.
